@@ -386,6 +386,13 @@ func genFrame(rt *rapid.T, fatalOK bool) Step {
 	switch intn(rt, "fv", 0, fhi) {
 	case 0, 1:
 		st.Var, st.F = "unknown_type", intn(rt, "ft", 0x0a, 0xff)
+		if st.F == 0x10 { // PRIORITY_UPDATE (RFC 9218) is parsed by the framer: off stream 0 / short payload = connection error
+			if fatalOK {
+				st.Var, st.Bad = "priority_update", true
+			} else {
+				st.F = 0x11
+			}
+		}
 	case 2:
 		st.Var, st.F = "priority", ftPriority
 		st.B = []byte{0, 0, 0, byte(intn(rt, "dep", 0, 9)), 7}
